@@ -646,6 +646,8 @@ def gen_low_weight_check_pdu(rng, kind, last=None):
     """A PDU whose check value has weight 1..2 (so that a corruption inside the guaranteed set can zero the check field
     and still touch a data bit).  Construction, not filtering: w consecutive message bits map bijectively (and
     affinely) onto the w-bit check value, so the window value is solved for on the *reference* serialisation."""
+    if kind == "hrnp":
+        raise HarnessError("use gen_low_weight_checksum_hrnp")
     p = gen_pdu(rng, kind, last=last)
     w = LOW_WEIGHT_WINDOW[kind]
     target = _low_weight_value(rng, w, 2 if w == 16 else 1)
@@ -672,6 +674,24 @@ def gen_low_weight_check_pdu(rng, kind, last=None):
     if ref_wire(p)[1] != target:
         raise HarnessError("low-weight construction inconsistent")
     return p
+
+
+def gen_low_weight_checksum_hrnp(rng, pool):
+    """HRNP DATA datagram whose checksum has weight 1..2: the packet number is solved for on the reference sum."""
+    p = gen_pdu(rng, "hrnp", pool)
+    p["opcode"], p["hdap"] = "DATA", rng.choice(pool)
+    # a set bit at the end of the field, so that a short burst can clear it and reach into the first payload octet
+    target = rng.choice([1, 2, 4, 1, 3, _low_weight_value(rng, 16, 2)])
+    p["pn"] = 0
+    s0 = hrnp_sum(p)
+    for pn in range(1 << 16):
+        s = s0 + pn
+        while s >> 16:
+            s = (s & 0xFFFF) + (s >> 16)
+        if (~s) & 0xFFFF == target:
+            p["pn"] = pn
+            return p
+    raise HarnessError("no packet number gives the wanted HRNP checksum")
 
 
 def _low_weight_value(rng, w, max_weight):
@@ -1027,7 +1047,7 @@ def _fault_budget(ctx: Ctx, kind):
     if kind in RATE_KINDS:
         return (2, 1, 6, 1500, None) if q else (8, 4, 9, 0, None)
     if kind == "hrnp":
-        return (8, 0, 6, 1500, None) if q else (48, 0, 9, 8000, None)
+        return (7, 1, 6, 1500, None) if q else (42, 6, 9, 8000, None)
     raise HarnessError(kind)
 
 
@@ -1052,6 +1072,8 @@ def make_fault_driver(group):
             for i in range(n_low):
                 if kind in LOW_WEIGHT_WINDOW:
                     pdus.append(("low_weight_check", gen_low_weight_check_pdu(rng, kind, last=bool(i % 2))))
+                elif kind == "hrnp":
+                    pdus.append(("low_weight_check", gen_low_weight_checksum_hrnp(rng, pool)))
             for j, (pcls, pdu) in enumerate(pdus):
                 n = expected_wire_bits(pdu)
                 if n is None:  # hrnp: length depends on the payload
